@@ -1318,3 +1318,12 @@ Proof.
   - intros p. destruct (skipped skip (part_of_t p)); [constructor | apply merge_part_wf].
   - intros p. destruct (skipped skip (part_of_r p)); [constructor | apply merge_part_wf].
 Qed.
+
+(* ------------------------------------------------------------------ nested rigs: only the pair matters *)
+Lemma rigs_entry_absent_iff skip st ho ins d f : merge_keep skip st ho ins = Ok (d, f) ->
+  forall r m, lookup_o (r, m) (k_rigs d) = None <-> forall i, In i ins -> lookup_o (r, m) (k_rigs (fst i)) = None.
+Proof.
+  intros OK r m. rewrite (rigs_first_wins _ _ _ _ _ _ OK), first_some_None. split.
+  - intros E i I. apply E. apply in_map_iff. exists i. auto.
+  - intros E x I. apply in_map_iff in I. destruct I as [i [<- I]]. apply E. assumption.
+Qed.
